@@ -346,18 +346,18 @@ class Table:
             return True
 
         def walk(bb, env, cons, onpath):
-            if bb in onpath:
-                raise TooComplex("cycle at bb%d in %s" % (bb, body.npath))
-            count[0] += 1
-            if count[0] > self.max_paths * 50:
-                raise TooComplex("too many steps in %s" % body.npath)
-            env = dict(env)
             if bb in self.stop and (onpath or bb != self.start):
                 vals = [env.get(l, Val("place", canon_local(body, l, {}))) for l in self.state]
                 rows.append((list(cons), Val("agg", ("state", "", vals))))
                 self.effects.append(list(env.get(("eff",), ())))
                 self.calls.append(list(env.get(("calls",), ())))
                 return
+            if bb in onpath:
+                raise TooComplex("cycle at bb%d in %s" % (bb, body.npath))
+            count[0] += 1
+            if count[0] > self.max_paths * 50:
+                raise TooComplex("too many steps in %s" % body.npath)
+            env = dict(env)
             blk = body.blocks[bb]
             for s in blk["stmts"]:
                 if s["k"] == "setdiscr":
